@@ -540,6 +540,26 @@ def generate(rng, tier):
         ds = [(c, deco_params(rng, c)) for c in [rng.choice(CLASSES) for _ in range(rng.choice([1, 2, 3]))]]
         yield dict(tag='stack len=%d valid (enumerated call)' % len(ds),
                    lines=['(deco stack %s %s %s %s)' % (sig_enc(sig), decos_enc(ds), enc(list(args)), enc(dict(kw)))])
+    # loops with a list / tuple / dict as the argument it dispatches on (review t5).  Of a type the wrapper does NOT loop over: a
+    # "non-container input" for this wrapper, the stack must be transparent (model == code).  Of a looped type: one call per element,
+    # C19's subject and outside this property's quantifier - the model driver declines (`bad-op`, `inDomain` in Wrap.lean) and
+    # `compare` checks that it declines on exactly these lines (`outside_loops_domain`, written independently)
+    conts = [[1, 2], (1, 2), {'p': 1}, [], (), [[1], [2]], ([1], 2), {'p': [1, 2], 'q': 3}]
+    withfirst = [(sg, a, k) for sg, a, k in allcalls if a or (sg[0] and sg[0][0] in k)]
+    for _ in range(200 if q else 3000):
+        sig, args, kw = rng.choice(withfirst)
+        args, kw = list(args), dict(kw)
+        v = rng.choice(conts)
+        if args:
+            args[0] = v
+        else:
+            kw[sig[0][0]] = v
+        cl = ['loops'] + rng.sample([c for c in CLASSES if c != 'loops'], rng.choice([0, 1, 2]))
+        rng.shuffle(cl)
+        ds = [(c, deco_params(rng, c)) for c in cl]
+        line = '(deco stack %s %s %s %s)' % (sig_enc(sig), decos_enc(ds), enc(args), enc(kw))
+        yield dict(tag='stack len=%d loops with a %s first argument of a %s type' % (len(ds), type(v).__name__, 'looped' if outside_loops_domain(line) else 'non-looped'),
+                   lines=[line])
     # construction: every sequence of <= 4 constructor applications (the same class may re-occur at any distance)
     seqs = list(itertools.product(CLASSES, repeat=4))
     for k in (1, 2, 3):
@@ -693,7 +713,38 @@ def line_is_k1(line):
     return any(k not in params for k in proto.dec(sx[5]))
 
 
+def outside_loops_domain(line):
+    """a `stack` line whose loops wrapper (the constructor keeps ONE per stack, with the parameters of the outermost application)
+    dispatches on a list / tuple / dict of one of its `types`: the wrapper loops over it - outside "loops on non-container input".
+    No other layer changes the kind of the first argument (kwargs_support keeps declared keywords, pd2np rebuilds containers)"""
+    sx = proto.parse(line)
+    if sx[1] != 'stack':
+        return False
+    params = sig_dec(sx[2])[0]
+    types = None
+    for c, p in decos_dec(sx[3]):
+        if c == 'loops':
+            types = p['types']
+    if types is None:
+        return False
+    args, kw = proto.dec(sx[4]), proto.dec(sx[5])
+    if args:
+        v = args[0]
+    elif params and params[0] in kw:
+        v = kw[params[0]]
+    else:
+        return False
+    return type(v).__name__ in types if isinstance(v, (list, tuple, dict)) else False
+
+
 def compare(case, i, line, ir, mr):
+    if line.startswith('(deco stack ') and (mr == 'bad-op' or outside_loops_domain(line)):
+        # the DOMAIN of the stack model ("loops on non-container input"): the driver must decline exactly the lines on which a loops
+        # wrapper receives a container of a looped type; what the code does there is property C19
+        if (mr == 'bad-op') == outside_loops_domain(line):
+            return None
+        return 'domain of the model: the driver %s a line on which loops %s a container of a looped type' % (
+            'declines' if mr == 'bad-op' else 'answers', 'receives' if outside_loops_domain(line) else 'does not receive')
     if proto.same_reply(ir, mr, numeric=False):
         return None
     tag = case.get('tag', '')
@@ -727,6 +778,8 @@ def nontrivial(line, reply):
     if not reply.startswith('ok'):
         return False
     sx = proto.parse(line)
+    if outside_loops_domain(line):
+        return False
     if sx[1] == 'mk':
         return len(sx[2]) > 2
     if sx[1] == 'cache':
